@@ -19,9 +19,10 @@ from mc.common import HarnessError
 
 
 def _tolerant_copy(d):
-    out = type(d)() if not isinstance(d, set) else set()
     if isinstance(d, set):
         return set(d)
+    from collections import defaultdict
+    out = defaultdict(d.default_factory) if isinstance(d, defaultdict) else type(d)()
     for k, v in d.items():
         try:
             out[k] = copy.deepcopy(v)
@@ -33,22 +34,55 @@ def _tolerant_copy(d):
     return out
 
 
-_GLOBALS = ['GLOBAL_CARDINALITY_STORAGE', 'GLOBAL_COUNTS_STORAGE', 'GLOBAL_RARE_VALUE_STORAGE', 'GLOBAL_PRIOR_COMB_COUNTS', 'IGNORED_VALUES']
+def _module_containers():
+    """every module-level mutable container of every loaded outrank module: the process-local state a forked worker owns a copy of"""
+    import sys
+    from collections import deque
+    out = []
+    for name, mod in sorted(sys.modules.items()):
+        if not (name == 'outrank' or name.startswith('outrank.')) or mod is None:
+            continue
+        for attr, val in sorted(vars(mod).items()):
+            if attr.startswith('__'):
+                continue
+            if isinstance(val, (dict, set, list, deque)):
+                out.append((name, attr, val))
+    return out
 
 
 def capture_state():
-    from outrank import core_ranking as cr
-    return {'random': random.getstate(), 'np': np.random.get_state(), 'globals': {g: _tolerant_copy(getattr(cr, g)) for g in _GLOBALS}}
+    cont = {}
+    for name, attr, val in _module_containers():
+        if isinstance(val, dict):
+            cont[(name, attr)] = _tolerant_copy(val)
+        elif isinstance(val, set):
+            cont[(name, attr)] = set(val)
+        else:
+            cont[(name, attr)] = copy.copy(val)
+    return {'random': random.getstate(), 'np': np.random.get_state(), 'containers': cont}
 
 
 def install_state(s):
-    from outrank import core_ranking as cr
     random.setstate(s['random'])
     np.random.set_state(s['np'])
-    for g in _GLOBALS:
-        tgt = getattr(cr, g)
-        tgt.clear()
-        tgt.update(_tolerant_copy(s['globals'][g]))
+    live = {(name, attr): val for name, attr, val in _module_containers()}
+    for key, snap in s['containers'].items():
+        tgt = live.get(key)
+        if tgt is None:
+            continue
+        if isinstance(tgt, dict):
+            tgt.clear()
+            tgt.update(_tolerant_copy(snap))
+        elif isinstance(tgt, set):
+            tgt.clear()
+            tgt.update(snap)
+        else:
+            tgt.clear()
+            tgt.extend(snap)
+    # containers created after the snapshot (e.g. a cache filled for the first time) start empty in a worker that never saw them
+    for key, tgt in live.items():
+        if key not in s['containers']:
+            tgt.clear()
 
 
 class _Ready:
